@@ -33,4 +33,21 @@ def stdCfgB (cfg : Config) : Bool :=
   cfg.tags == ["json", "yaml", "mapstructure"] && cfg.caps.isEmpty && !cfg.onlyModels && !cfg.minSizedInts &&
   cfg.rootType == "Root" && cfg.pkg != ""
 
+
+/-- the keywords of a scalar member fit its type, and every stated numeric keyword is one a check is emitted for -/
+def kwOKB (p : Schema) : Bool :=
+  !p.node.hasNot &&
+  (if p.node.types == ["string"] then !hasNumTop p && !hasArrTop p
+   else if p.node.types == ["boolean"] then topFree p
+   else !hasStrTop p && !hasArrTop p && decide (p.node.xmin ≠ .other) && decide (p.node.xmax ≠ .other) &&
+        (!hasNumTop p || (normLo p.node.minimum p.node.xmin).1.isSome || (normHi p.node.maximum p.node.xmax).1.isSome))
+
+/-- the flat fragment WITH value constraints on the members (`flat_end_to_end_full`) -/
+def flatFullB (t : Schema) : Bool :=
+  t.node.types == ["object"] && t.node.ref == "" && t.node.enum.isNone && t.node.ext.isNone && t.node.anyOf.isEmpty &&
+  t.node.allOf.isEmpty && t.node.addl.isNone && t.node.anyOfCount == 0 && !t.node.subElem && !t.node.props.isEmpty &&
+  (sortedKeys t.node.props).all (nameOKB t) && decide (((sortedKeys t.node.props).map fname).Nodup) &&
+  !t.node.hasNot && t.node.multipleOf.isNone && t.node.format == "" && decide ((akeys t.node.props).Nodup) &&
+  t.node.required.all (fun k => (akeys t.node.props).contains k) &&
+  t.node.props.all (fun p => kwOKB p.2) && decide (t.node.props.length ≤ 31) && topFree t
 end GJS.Props.Flat
